@@ -391,6 +391,78 @@ def run_suite(name, tier, seed, workdir, replay_lines=None):
     return tot
 
 
+# ------------------------------------------------------------------------------- corpus and shrinking
+
+CORPUS = os.path.join(ROOT, 'corpus')
+
+
+def load_corpus(suite):
+    """minimised failing inputs of earlier (seeded) breakages, kept under /verif/corpus/<suite>.cases; they run first"""
+    p = os.path.join(CORPUS, suite.replace('-release', '') + '.cases')
+    if not os.path.exists(p):
+        return []
+    return [l.rstrip('\n') for l in open(p) if l.strip() and l[0] in 'CHO']
+
+
+def merge_results(a, b):
+    """a = corpus run, b = generated run"""
+    tot = dict(b)
+    for k in ('results', 'records', 'nontrivial', 'ndiff', 'missing_model', 'unmodelled', 'distinct'):
+        tot[k] = a[k] + b[k]
+    for k in ('t_harness', 't_driver', 't_compare'):
+        tot[k] = round(a[k] + b[k], 2)
+    tot['diffs'] = a['diffs'] + b['diffs']
+    tot['mon_fail'] = a['mon_fail'] + b['mon_fail']
+    tot['errors'] = a['errors'] + b['errors']
+    mc = {k: list(v) for k, v in b['mon_count'].items()}
+    for k, v in a['mon_count'].items():
+        c = mc.setdefault(k, [0, 0])
+        c[0] += v[0]
+        c[1] += v[1]
+    tot['mon_count'] = mc
+    tot['notes'] = ['corpus: %d results from %d kept cases ran first (%d differences, %d monitor failures)'
+                    % (a['results'], a['records'], a['ndiff'], len(a['mon_fail']))] + b['notes']
+    return tot
+
+
+def shrink_case(suite, seed, case, monitor, cls, workdir, budget_s=30):
+    """delta debugging over the operations of an agent history: the smallest sub-sequence on which the same monitor
+    still rejects the implementation with the same class. Returns (lines, replays run) or None."""
+    if SUITES[suite]['bin'] != 'agent':
+        return None
+    head = [l for l in case if l[0] == 'H']
+    ops = [l for l in case if l[0] == 'O']
+    if not head or len(ops) < 2:
+        return None
+    t0 = time.time()
+    runs = [0]
+
+    def fails(o):
+        runs[0] += 1
+        r = run_suite(suite, 'quick', seed, os.path.join(workdir, 'shrink'), replay_lines=head[:1] + o)
+        return any(m['monitor'] == monitor and m['cls'] == cls for m in r['mon_fail'])
+    if not fails(ops):
+        return None
+    n = 2
+    while len(ops) >= 2 and time.time() - t0 < budget_s:
+        size = max(1, len(ops) // n)
+        reduced = False
+        for start in range(0, len(ops), size):
+            cand = ops[:start] + ops[start + size:]
+            if cand and fails(cand):
+                ops = cand
+                n = max(n - 1, 2)
+                reduced = True
+                break
+            if time.time() - t0 > budget_s:
+                break
+        if not reduced:
+            if size == 1:
+                break
+            n = min(n * 2, len(ops))
+    return head[:1] + ops, runs[0]
+
+
 # ------------------------------------------------------------------------------------------- findings
 
 def load_known():
@@ -480,6 +552,9 @@ def check(prop, tier, seed):
     if build_ok:
         for s in suites:
             res = run_suite(s, tier, seed, workdir)
+            corpus = load_corpus(s)
+            if corpus:
+                res = merge_results(run_suite(s, tier, seed, os.path.join(workdir, 'corpus'), replay_lines=corpus), res)
             obligations.append('correspondence suite ' + s)
             evaluations += res['results']
             distinct += res['distinct']
@@ -501,10 +576,16 @@ def check(prop, tier, seed):
                         known_lines.append(line)
                 else:
                     unlisted.append(m)
-            for m in unlisted[:3]:
+            for n_, m in enumerate(unlisted[:3]):
+                extra = {}
+                if n_ == 0:
+                    sh = shrink_case(s, seed, m['case'], m['monitor'], m['cls'], workdir)
+                    if sh and len(sh[0]) < len([l for l in m['case'] if l[0] in 'HO']):
+                        extra = dict(original_case=m['case'], shrink='delta debugging over the operations: %d replays' % sh[1])
+                        m = dict(m, case=sh[0])
                 path = write_replay(prop, 'failing-input', dict(
                     property=prop, kind='failing-input', suite=s, seed=seed, monitor=m['monitor'], cls=m['cls'],
-                    case=m['case'], note='the Gallina spec monitor %s rejects the implementation\'s behaviour on this case' % m['monitor']))
+                    case=m['case'], **extra, note='the Gallina spec monitor %s rejects the implementation\'s behaviour on this case' % m['monitor']))
                 violations.append((path, ''))
             for name_, c in res['mon_count'].items():
                 if name_ in cfg['monitors']:
